@@ -313,6 +313,18 @@ func TestC09_Headers(t *testing.T) {
 				stats.Violation(t, part, "C09/entropy-unstable/calls", fmt.Sprintf("block %d (%d uncles): seal entropy %v, %v, %v (cold); delta entropy %v, %v, %v (cold)", bi, len(b.Zone().Uncles()), s0v, s1, s2, d1, d2, d3), dump())
 				return
 			}
+			// the order is the protocol's function of the seal and the recorded entropy deltas
+			if pow, err := hcOf(sim.Zone).VerifySeal(b.Zone().WorkObjectHeader()); err != nil {
+				t.Fatalf("HARNESS: VerifySeal of an accepted block: %v", err)
+			} else if ref, why := refOrder(b.Zone(), pow); ref != o1 {
+				stats.Violation(t, part, "C09/order-differs-from-rule", fmt.Sprintf("block %d (zone #%d): CalcOrder says %d, the order rule applied to its seal and recorded deltas gives %d (%s)", bi, b.Zone().NumberU64(sim.Zone), o1, ref, why), dump())
+				return
+			} else {
+				stats.Label(part, fmt.Sprintf("order_rule_checked_%d", ref))
+				if strings.Contains(why, "seal-grade-above-order") {
+					stats.Label(part, "order_limited_by_delta_entropy")
+				}
+			}
 			if len(b.Zone().Uncles()) > 0 {
 				withUncles++
 			}
@@ -472,4 +484,48 @@ func tail(l []string, n int) []string {
 		return l[len(l)-n:]
 	}
 	return l
+}
+
+// refOrder is the order rule of the protocol (PoEM), written from its definition: a block is a
+// prime block when its seal carries more than log2(PrimeEntropyTarget) bits beyond the zone
+// threshold AND the entropy accumulated since the last prime block (recorded region and zone
+// deltas plus the seal's own) exceeds PrimeEntropyTarget x zone threshold / 2; likewise for region
+// with the zone delta only; otherwise it is a zone block. All values in 2^-64 bit units.
+func refOrder(h *types.WorkObject, powHash common.Hash) (int, string) {
+	exp := h.ExpansionNumber()
+	intrinsic := common.IntrinsicLogEntropy(powHash)
+	target := new(big.Int).Div(common.Big2e256, h.Difficulty())
+	zoneThr := common.IntrinsicLogEntropy(common.BytesToHash(target.Bytes()))
+	grade := common.ZONE_CTX
+	for _, lvl := range []int{common.PRIME_CTX, common.REGION_CTX} {
+		var tgt *big.Int
+		delta := new(big.Int).Set(intrinsic)
+		if lvl == common.PRIME_CTX {
+			tgt = params.PrimeEntropyTarget(exp)
+			delta.Add(delta, h.ParentDeltaEntropy(common.REGION_CTX))
+			delta.Add(delta, h.ParentDeltaEntropy(common.ZONE_CTX))
+		} else {
+			tgt = params.RegionEntropyTarget(exp)
+			delta.Add(delta, h.ParentDeltaEntropy(common.ZONE_CTX))
+		}
+		sealThr := new(big.Int).Add(zoneThr, common.BitsToBigBits(new(big.Int).Set(tgt)))
+		deltaThr := new(big.Int).Div(new(big.Int).Mul(new(big.Int).Set(tgt), zoneThr), big.NewInt(2))
+		if intrinsic.Cmp(sealThr) > 0 {
+			if delta.Cmp(deltaThr) > 0 {
+				why := fmt.Sprintf("level %d: seal %v > %v and accumulated %v > %v", lvl, intrinsic, sealThr, delta, deltaThr)
+				if grade != common.ZONE_CTX {
+					why += " seal-grade-above-order"
+				}
+				return lvl, why
+			}
+			if grade == common.ZONE_CTX {
+				grade = lvl
+			}
+		}
+	}
+	why := "zone"
+	if grade != common.ZONE_CTX {
+		why = fmt.Sprintf("seal-grade-above-order: seal is grade %d but the accumulated entropy is below the target", grade)
+	}
+	return common.ZONE_CTX, why
 }
